@@ -120,3 +120,44 @@ def counted_product_loop(body):
         return {"head": head, "switch": sw, "exit": t_t, "body_entry": f_t, "acc": acc, "c": c, "b": b, "step": step,
                 "blocks": sorted(loop)}, None
     return None, "no loop of the form `while !c.is_zero() { acc *= &b; c -= &signum(c0) }` found"
+
+
+# ---- loop structure helpers shared by the inductive checks ------------------------------------------------------------
+def loop_heads(body):
+    """Targets of back edges, outermost first."""
+    cfg = body.cfg
+    hs = set()
+    for b in cfg.reach0:
+        for x in cfg.succ[b]:
+            if cfg.dominates(x, b):
+                hs.add(x)
+    return sorted(hs, key=lambda h: len(cfg.dom[h]))
+
+
+def loop_blocks(body, head):
+    cfg = body.cfg
+    fw = cfg.reachable_from(head)
+    return {b for b in fw if head in cfg.reachable_after(b) and cfg.dominates(head, b)}
+
+
+def variant_locals(body, head):
+    """Locals assigned, mutably borrowed or written by a call inside the loop of `head` that are live at the head."""
+    from . import cfg as _cfg
+    live = getattr(body, "_live", None) or _cfg.liveness(body)
+    body._live = live
+    live_in, addr = live
+    v = set()
+    for bid in loop_blocks(body, head):
+        b = body.blocks[bid]
+        for st in b["stmts"]:
+            if st["k"] != "assign":
+                continue
+            if not any(e["k"] == "deref" for e in st["place"]["proj"]):
+                v.add(st["place"]["local"])
+            rv = st["rv"]
+            if rv["k"] == "ref" and rv.get("mut") and not any(e["k"] == "deref" for e in rv["place"]["proj"]):
+                v.add(rv["place"]["local"])
+        t = b["term"]["t"]
+        if t["k"] == "call" and not t["dest"]["proj"]:
+            v.add(t["dest"]["local"])
+    return {l for l in v if l in live_in[head] or l in addr}
